@@ -115,6 +115,24 @@ def compress_case(ctx, idx, rng):
         kmin, kmax = oracles.expected_kept_range(sig, tol)
         k = D_new[cut]
         ctx.ok('compress.first-bond-kept-count', kmin <= k <= kmax, f'first truncated bond (cut {cut}) keeps {k} Schmidt values, rule prescribes [{kmin},{kmax}]', detail)
+    if idx % 4 == 0 and not ctx._case_failed:
+        # history: the same (now canonical) object edited in place and compressed again, possibly in the other direction
+        j = int(rng.integers(0, L))
+        psi.A[j] *= float(rng.choice([3.0, -0.5, 2.0]))
+        mode2 = str(rng.choice(['left', 'right']))
+        v_b = refs.dense_state(psi.A)
+        n_b = float(np.linalg.norm(v_b))
+        nrm2, scale2 = psi.compress(tol, mode2)
+        v_a = refs.dense_state(psi.A)
+        ctx.close('compress.again.nrm-equals-norm', abs(float(nrm2) - n_b), 1e-10 * n_b, 'second compress after an in-place edit: nrm != current norm', detail)
+        ctx.close('compress.again.unit-norm', abs(np.linalg.norm(v_a) - 1), 1e-10, 'second compress: not normalised', detail)
+        ctx.close('compress.again.error-identity', abs(float(np.linalg.norm(float(nrm2) * float(scale2) * v_a - v_b) ** 2) - float(nrm2) ** 2 * (1 - float(scale2) ** 2)) / n_b ** 2, 1e-10,
+                  'second compress: error identity', detail)
+        worst = 0.0
+        for A_ in psi.A:
+            M_ = A_.reshape(-1, A_.shape[2]) if mode2 == 'left' else A_.transpose(0, 2, 1).reshape(-1, A_.shape[1])
+            worst = max(worst, float(np.linalg.norm(M_.conj().T @ M_ - np.identity(M_.shape[1]))))
+        ctx.close('compress.again.canonical', worst, 1e-9, f'second compress: not {mode2}-canonical', detail)
 
 
 def from_vector_case(ctx, idx, rng):
